@@ -60,7 +60,7 @@ CLAIMED["C12"] = ("§3 C12",
 
 CLAIMED["C11"] = ("§3 C11",
     "path automata on the two YAML encoders: SetString-then-consult typestate (yaml.v3), plain-return-only-after-consult reachability and gate (goccy), key emission must-pass",
-    "Narrow: decides that every string value and mapping key passes the quoting decision (shouldQuote / quoteScalar / blockLiteralSafe or an explicit tag/style) before it is emitted, in both live encoders, and that the scalar switches cover all literal kinds. It does not decide whether the predicates are right for a given string, nor numbers, nor the JSON-as-YAML clause.",
+    "Narrow: decides that every string value and mapping key passes the quoting decision (shouldQuote / quoteScalar / blockLiteralSafe or an explicit tag/style) before it is emitted, in both live encoders, that the scalar switches cover all literal kinds, that bytes literals are always emitted as !!binary, the newline decision table of the goccy encoder (block literal only for multi-line literals that pass blockLiteralSafe, otherwise double quotes, never plain), that the predicate routing strings to double quotes covers every rune the emitter would escape inside single quotes (read from the library source), and that a literal block is chosen only for strings with an unindented content line. Two genuine defects found by the last two rules were repaired in /repo. It does not decide the remaining content of the quoting predicates (which plain scalars resolve as non-strings), numbers, nor the JSON-as-YAML clause.",
     "third-party emitters honour styles and raw scalars")
 
 CLAIMED["C19"] = ("§3 C19",
